@@ -32,6 +32,8 @@ structure ClassDecl where
   bases : List Nat
   names : List String
   kw : List (String × String)
+  /-- methods this class defines itself (overriding what it inherits) -/
+  over : List String := []
 deriving Repr, Inhabited
 
 /-- `event_handler(*names, **kw)(cls)` : events.py:161-175.  `inherited` is what
@@ -80,6 +82,9 @@ deriving Repr, DecidableEq, Inhabited
 structure Universe where
   /-- `type(o).__events__` of every declared object (none: not a handler) -/
   mapping : Obj → Option Mapping
+  /-- the function `getattr(type(o), method_name)` resolves to, as `name@definingClass`
+  (events.py:62,67: the callback is looked up on the handler's own class) -/
+  impl : Obj → String → String := fun _ m => m
   /-- scripted reaction of the k-th invocation of a method of an object -/
   reaction : Obj → String → Nat → List Op
 
@@ -208,7 +213,7 @@ def deliver (U : Universe) : Nat → St → List (Obj × String) → String → 
         | some (r, m) =>
           let k := (Dict.get? s.calls (r, m)).getD 0
           let s := { s with hints := hs, calls := Dict.set s.calls (r, m) (k + 1),
-                            pinned := r :: s.pinned, log := .cb (some r) m args :: s.log }
+                            pinned := r :: s.pinned, log := .cb (some r) (U.impl r m) args :: s.log }
           match execOps U fuel s (U.reaction r m k) with
           | (s', .ok) => deliver U fuel (unpin s' r) (remaining.filter (· ≠ (r, m))) args
           | (s', o) => (unpin s' r, o)
@@ -296,14 +301,18 @@ def stripPrefix (p s : String) : Option String :=
 
 def parseLine (p : Parsed) (line : String) : Parsed :=
   match tokens line with
-  | ["class", cid, b, n, k] =>
+  | "class" :: cid :: b :: n :: k :: rest =>
+    let over := match rest with
+      | [o] => (stripPrefix "over=" o).map splitList
+      | [] => some []
+      | _ => none
     match cid.toNat?, (stripPrefix "bases=" b).bind natList?, stripPrefix "names=" n,
-          (stripPrefix "kw=" k).bind parsePairs with
-    | some c, some bs, some ns, some kw =>
+          (stripPrefix "kw=" k).bind parsePairs, over with
+    | some c, some bs, some ns, some kw, some ov =>
       if c = p.classes.length then
-        { p with classes := p.classes ++ [{ bases := bs, names := splitList ns, kw := kw }] }
+        { p with classes := p.classes ++ [{ bases := bs, names := splitList ns, kw := kw, over := ov }] }
       else { p with bad := true }
-    | _, _, _, _ => { p with bad := true }
+    | _, _, _, _, _ => { p with bad := true }
   | "obj" :: o :: c :: _ =>
     match o.toNat?, (stripPrefix "class=" c).bind String.toNat? with
     | some o, some c => { p with objClass := Dict.set p.objClass o c }
@@ -323,9 +332,27 @@ def parseLine (p : Parsed) (line : String) : Parsed :=
   | [] => p
   | _ => { p with bad := true }
 
+/-- the class whose definition of `m` an instance of class `c` uses: `c` itself if it defines
+`m`, else what its handler base uses, else the root (`R`) -/
+def implClass (cs : List ClassDecl) (tbl : List (Option Mapping)) (m : String) : Nat → Nat → String
+  | 0, _ => "R"
+  | fuel + 1, c =>
+    match cs[c]? with
+    | none => "R"
+    | some d =>
+      if d.over.contains m then toString c
+      else
+        match d.bases.find? (fun b => ((tbl[b]?).join).isSome) with
+        | some b => implClass cs tbl m fuel b
+        | none => "R"
+
 def Parsed.universe (p : Parsed) : Universe :=
   let tbl := classTable p.classes
   { mapping := fun o => ((Dict.get? p.objClass o).bind (fun c => tbl[c]?)).join
+    impl := fun o m =>
+      match Dict.get? p.objClass o with
+      | some c => m ++ "@" ++ implClass p.classes tbl m (p.classes.length + 1) c
+      | none => m
     reaction := fun o m k => (Dict.get? p.reactions (o, m, k)).getD [] }
 
 def defaultFuel : Nat := 100000
